@@ -21,6 +21,8 @@ Suites
                      construction) and random mixes of tags, tag fragments and blanks of all kinds
   COUNTWORDS-<fmt>   every count_words() the compare model was fed, for the formats using the base counter
   (accumulate)       one observer over several files: summary = sum of the per-file summaries
+  (multifile)        ONE ContentComparer / observer over 3-5 files in shuffled order whose paths share
+                     directory prefixes: per-path missing / obsolete keys and the summed summary
   (project)          compareProjects on a generated l10n.toml project over one to four locales in
                      ONE run (the configuration's filter is the observer's filter; missing files
                      go through ContentComparer.add): summaries per locale and missing / obsolete
@@ -96,6 +98,11 @@ def has_markup(it):
 def chunk(rng, fmt):
     a, b, c = (rng.choice(WORDS) for _ in range(3))
     br = rng.choice(["<br>", "<br/>", "<br />", "<br\t/>", "<br  >"] + (["<br\n/>", "<br\n>"] if fmt == "dtd" else []))
+    if fmt == "properties" and rng.random() < 0.35:
+        # printf material, also malformed: a stray %, ordered arguments mixed with plain ones or
+        # with gaps (the checker's verdicts on them are C06's subject; compare must not raise)
+        return (rng.choice(["100%", "%", "%S", "%d", "%%", "%1$S", "%3$S", "%1$S%S", "%2$S%1$S",
+                            f"{a}%", f"%{a}", "%1$", "%$S", "100%;", "%ld"]), 1)
     return rng.choice([
         (f"{a}{br}{b}", 2), (f"{a}{br}{br}{b}", 2), (f"{a}{br}", 1), (br, 0), (f"{a}{br}{b}{br}{c}", 3),
         (f"{a}<b>{b}</b>", 1), (f"<i>{a}</i>", 1), (f"{a}<a href='x'>{b}</a>{c}", 1),
@@ -385,9 +392,12 @@ def expected(case, verdicts):
         return len({k for k in ks if ks.count(k) > 1})
     exp_errors = sum(it[0] == "junk" for it in case["l10n"]) + dups(case["l10n"])
     exp_warnings = sum(it[0] == "junk" for it in case["ref"]) + dups(case["ref"])
-    if fmt == "dtd" and any(has_markup(it) for it in case["ref"] + case["l10n"] if it[0] == "rec"):
+    recs = [it for it in case["ref"] + case["l10n"] if it[0] == "rec"]
+    if fmt == "dtd" and any(has_markup(it) for it in recs):
         # the DTD checker parses the localized value as XML: its verdicts on markup are C07's subject
         exp_errors = exp_warnings = None
+    if fmt == "properties" and any("%" in w_text(w) for it in recs for w in it[2]):
+        exp_errors = exp_warnings = None        # printf verdicts: C06's subject
     return exp, sets, plain, exp_errors, exp_warnings
 
 
@@ -538,7 +548,7 @@ def make_filter(verdicts, file_verdict="error"):
     return flt
 
 
-def run_compare(fmt, refpath, l10npath, verdicts, merge, tables, quiet=0):
+def run_compare(fmt, refpath, l10npath, verdicts, merge, tables, quiet=0, names=None):
     """-> canonical result of the implementation, and the raw summary dict"""
     from compare_locales.compare.content import ContentComparer
     from compare_locales.compare.observer import Observer
@@ -564,14 +574,16 @@ def run_compare(fmt, refpath, l10npath, verdicts, merge, tables, quiet=0):
     cc = RecComparer(quiet=quiet)
     obs = RecObserver(quiet=quiet, filter=make_filter(verdicts) if verdicts is not None else None)
     cc.observers.append(obs)
-    name = FILE[fmt]
-    ref_file = File(refpath, name, locale="xx")
-    l10n_file = File(l10npath, name, locale="xx")
+    ref_name, l10n_name = names or (FILE[fmt], FILE[fmt])
+    ref_file = File(refpath, ref_name, locale="xx")
+    l10n_file = File(l10npath, l10n_name, locale="xx")
     reset_junk()
     try:
         cc.compare(ref_file, l10n_file, "/nonexistent/verif_c03_merge" if merge else None)
     except AttributeError:
         return [1, 8], None, None           # stands for AttributeError (see Model/Compare.v)
+    except Exception as e:  # noqa   anything escaping compare() is a failure of the property
+        return [1, 99, s2l(type(e).__name__)], None, None
     js = obs.toJSON()
     det = list(js["details"].values())
     det = det[0] if det else []
@@ -629,18 +641,21 @@ def write(path, text):
         f.write(text)
 
 
-def one_pair(chk, work, fmt, ref_text, l10n_text, verdicts, merge, case=None, count=True, quiet=0):
+def one_pair(chk, work, fmt, ref_text, l10n_text, verdicts, merge, case=None, count=True, quiet=0,
+             names=None):
     """run implementation + oracle on one pair; -> (request for the model, impl result, tables)"""
     from compare_locales.paths import File
     refpath, l10npath = work.paths(fmt)
     write(refpath, ref_text)
     write(l10npath, l10n_text)
-    tables = Tables(fmt, refpath, l10npath, File(l10npath, FILE[fmt], locale="xx"))
-    res, summ, mirror = run_compare(fmt, refpath, l10npath, verdicts, merge, tables, quiet)
+    tables = Tables(fmt, refpath, l10npath, File(l10npath, (names or (0, FILE[fmt]))[1], locale="xx"))
+    res, summ, mirror = run_compare(fmt, refpath, l10npath, verdicts, merge, tables, quiet, names)
     vt = [[canon_key(k), VCODE[v]] for k, v in (verdicts or {}).items() if v != "error"]
     req = (0, [vt, tables.ref_sx, tables.l10n_sx, tables.chk_sx, int(merge)])
     desc = {"format": fmt, "ref": ref_text, "l10n": l10n_text, "verdicts": verdicts and
             [[k, v] for k, v in verdicts.items()], "merge": merge, "quiet": quiet}
+    if names:
+        desc["names"] = list(names)
     if case is not None:
         desc["script"] = script_json(case)
     if count:
@@ -745,8 +760,12 @@ def suite_compare(chk, work, model, fmt, n, spicy):
         chk.hist("quiet_level_compare", quiet)
         ref_text = render(fmt, case["ref"], "ref")
         l10n_text = render(fmt, case["l10n"], "l10n")
+        names = None
+        if fmt == "po":         # template and catalogue names: .pot / .po
+            names = rng.choice([("a.po", "a.po"), ("a.pot", "a.po"), ("a.pot", "a.pot")])
+            chk.hist("po_file_names", "/".join(names))
         req, res, tables, desc = one_pair(chk, work, fmt, ref_text, l10n_text, verdicts, merge, case,
-                                          quiet=quiet)
+                                          quiet=quiet, names=names)
         reqs.append(req)
         impl.append(res)
         tabs.append((tables, merge, quiet))
@@ -840,7 +859,7 @@ def suite_junkkey(chk, work, model):
         chk.correspond("COMPARE-junkkey", descs, impl, outs)
 
 
-def add_one(chk, work, fmt, case, fv):
+def add_one(chk, work, fmt, case, fv, name=None):
     """ContentComparer.add on the rendered reference + oracle; -> (impl result, description)"""
     from compare_locales.compare.content import ContentComparer
     from compare_locales.compare.observer import Observer
@@ -854,9 +873,11 @@ def add_one(chk, work, fmt, case, fv):
     obs = Observer(filter=make_filter({}, fv) if fv is not None else None)
     cc.observers.append(obs)
     reset_junk()
-    desc = {"format": fmt, "ref": ref_text, "file_verdict": fv, "add_script": script_json(case)}
+    name = name or FILE[fmt]
+    desc = {"format": fmt, "ref": ref_text, "file_verdict": fv, "add_script": script_json(case),
+            "name": name}
     try:
-        cc.add(File(refpath, FILE[fmt], locale="xx"), File(l10npath, FILE[fmt], locale="xx"), None)
+        cc.add(File(refpath, name, locale="xx"), File(l10npath, name, locale="xx"), None)
     except Exception as e:  # noqa
         chk.fail(f"{fmt}-add-file-raised", desc, repr(e))
         return None, desc
@@ -880,8 +901,9 @@ def suite_add(chk, work, model, fmt, n):
     for _ in range(n):
         case = gen_case(rng, fmt)
         fv = rng.choice(["error", "error", "ignore", "warning", None])
-        res, desc = add_one(chk, work, fmt, case, fv)
-        chk.count(("add", fmt, desc["ref"], fv))
+        res, desc = add_one(chk, work, fmt, case, fv,
+                            rng.choice(["a.po", "a.pot"]) if fmt == "po" else None)
+        chk.count(("add", fmt, desc["ref"], fv, desc["name"]))
         if res is None:
             continue
         reset_junk()
@@ -1046,6 +1068,72 @@ def project_one(chk, work, spec):
                 return
 
 
+MULTI_PATHS = ["browser/menu.properties", "toolkit/global.properties", "browser/tabs.properties",
+               "browser/chrome/x.dtd", "toolkit/crash/c.ini", "browser/chrome/y.ftl", "dom/a.properties",
+               "toolkit/z.dtd", "browser/b.inc", "browser/chrome/sub/deep.properties", "top.ini",
+               "toolkit/crash/d.po"]
+EXT_FMT = {"properties": "properties", "dtd": "dtd", "ini": "ini", "ftl": "ftl", "inc": "inc", "po": "po"}
+
+
+def multi_one(chk, work, spec):
+    """ONE ContentComparer and observer over several files whose paths share directory prefixes,
+    in the given order: what is reported for each file (missing / obsolete keys under ITS path,
+    nothing under any other path) and the summed summary follow from the edit scripts"""
+    from compare_locales.compare.content import ContentComparer
+    from compare_locales.compare.observer import Observer
+    from compare_locales.paths import File
+    root = os.path.join(work.dir, "multi")
+    shutil.rmtree(root, ignore_errors=True)
+    cc = ContentComparer()
+    obs = Observer()
+    cc.observers.append(obs)
+    want, want_sum = {}, dict.fromkeys(STATS, 0)
+    reset_junk()
+    for rel, js in spec["files"]:
+        case = script_load(js)
+        fmt = case["format"]
+        paths = []
+        for side in ("ref", "l10n"):
+            path = os.path.join(root, side, rel)
+            os.makedirs(os.path.dirname(path), exist_ok=True)
+            write(path, render(fmt, case[side], side))
+            paths.append(path)
+        exp, sets, plain, _, _ = expected(case, {})
+        for k in STATS:
+            want_sum[k] += exp[k]
+        want[rel] = (sorted(map(str, sets["missing"])), sorted(map(str, sets["obsolete"])))
+        try:
+            cc.compare(File(paths[0], rel, locale="xx"), File(paths[1], rel, locale="xx"), None)
+        except Exception as e:  # noqa
+            chk.fail("multi-raised", {"multi": spec}, repr(e))
+            return
+    data = obs.toJSON()
+    flat = flatten(data["details"])
+    for rel in sorted(set(flat) | set(want)):
+        items = flat.get(rel, [])
+        got = (sorted(str(d["missingEntity"]) for d in items if "missingEntity" in d),
+               sorted(str(d["obsoleteEntity"]) for d in items if "obsoleteEntity" in d))
+        if got != want.get(rel, ([], [])) or (rel not in want and items):
+            chk.fail("multi-details", {"multi": spec},
+                     {"path": rel, "order": [r for r, _ in spec["files"]], "reported": got,
+                      "expected": want.get(rel, "no such file")})
+            return
+    summ = data["summary"].get("xx", {})
+    got = {k: summ.get(k, 0) for k in STATS}
+    if got != want_sum:
+        chk.fail("multi-summary", {"multi": spec}, {"summary": got, "expected": want_sum})
+
+
+def suite_multifile(chk, work, n):
+    rng = chk.rng
+    for _ in range(n):
+        rels = rng.sample(MULTI_PATHS, rng.randint(3, 5))
+        spec = {"files": [[rel, script_json(gen_case(rng, EXT_FMT[rel.rsplit(".", 1)[1]]))] for rel in rels]}
+        chk.count(("multi", json.dumps(spec, sort_keys=True)))
+        chk.hist("files_per_comparer", len(rels))
+        multi_one(chk, work, spec)
+
+
 def suite_project(chk, work, n):
     for _ in range(n):
         spec = gen_project(chk.rng)
@@ -1125,6 +1213,7 @@ def run(chk, runner_ok):
         suite_junkkey(chk, work, model)
         suite_accumulate(chk, work, chk.n(60, 400))
         suite_project(chk, work, chk.n(150, 1200))
+        suite_multifile(chk, work, chk.n(200, 1500))
         for fmt in FORMATS:
             suite_compare(chk, work, model, fmt, chk.n(1500, 8000), spicy=False)
             suite_compare(chk, work, model, fmt, chk.n(500, 3000), spicy=True)
@@ -1151,12 +1240,17 @@ def replay(chk, path):
                     verdicts = {(tuple(k) if isinstance(k, list) else k): v for k, v in c["verdicts"]}
                 req, res, tables, desc = one_pair(chk, work, c["format"], c["ref"], c["l10n"], verdicts,
                                                   c["merge"], script_load(c["script"]), count=False,
-                                                  quiet=c.get("quiet", 0))
+                                                  quiet=c.get("quiet", 0),
+                                                  names=tuple(c["names"]) if c.get("names") else None)
                 print("case", json.dumps({k: c[k] for k in ("format", "ref", "l10n", "verdicts", "merge")}))
                 print("  implementation:", res)
             elif "add_script" in c:
-                res, _ = add_one(chk, work, c["format"], script_load(c["add_script"]), c["file_verdict"])
+                res, _ = add_one(chk, work, c["format"], script_load(c["add_script"]), c["file_verdict"],
+                                 c.get("name"))
                 print("case add", json.dumps({k: c[k] for k in ("format", "ref", "file_verdict")}), "->", res)
+            elif "multi" in c:
+                multi_one(chk, work, c["multi"])
+                print("case multi", [r for r, _ in c["multi"]["files"]])
             elif "project" in c:
                 project_one(chk, work, c["project"])
                 print("case project", c["project"]["locales"], sorted(c["project"]["files"]))
